@@ -834,8 +834,42 @@ impl<'a> Gen<'a> {
         }
     }
 
+    /// `a[i] op= rhs` where the order load-then-rhs is observable: rhs overwrites the element,
+    /// emits, or fails; the load itself may fail.
+    fn aug_order_stmt(&mut self) -> Vec<J> {
+        let l = self.fresh("v");
+        let f = self.fresh("f");
+        let is_dict = self.rng.chance(1, 3);
+        let (init, good, bad): (J, J, J) = if is_dict {
+            (json!({"k": "dict", "keys": [strlit("a"), strlit("b")], "vals": [int(1), int(2)]}), strlit("a"), strlit("nokey"))
+        } else {
+            (json!({"k": "list", "items": [int(1), int(2), int(3)]}), int(1), int(9))
+        };
+        let mut out = vec![
+            assign(&l, init),
+            json!({"k": "def", "name": f, "params": [], "body": [
+                {"k": "assign", "tg": {"k": "index", "e": var(&l), "i": good.clone()}, "e": int(100)},
+                emit(int(77)),
+                {"k": "return", "e": int(10)}]}),
+        ];
+        self.declare(&l, if is_dict { Ty::DictSI } else { Ty::ListInt });
+        let rhs = match self.rng.below(3) {
+            0 => call(var(&f), vec![]),
+            1 => bin("//", int(1), int(0)),
+            _ => bin("+", call(var(&f), vec![]), int(1)),
+        };
+        let idx = if self.rng.chance(1, 3) { bad } else { good };
+        let op = self.pick(&["+", "-", "*"]);
+        out.push(json!({"k": "aug", "op": op, "tg": {"k": "index", "e": var(&l), "i": idx}, "e": rhs}));
+        out.push(emit(var(&l)));
+        out
+    }
+
     pub fn stmt(&mut self, depth: u32) -> Vec<J> {
         let w = self.rng.below(100);
+        if depth > 0 && self.rng.chance(1, 25) {
+            return self.aug_order_stmt();
+        }
         if depth == 0 {
             return if w < 50 { self.emit_stmt(2) } else if w < 80 { self.new_var_stmt(2) } else { self.mutate_stmt(2) };
         }
